@@ -123,6 +123,22 @@ CASES = [
     ("benign-validate-variable", ["C16"], "io.py", "    if not _validate_scsv_schema(schema):\n        raise _err.SCSVError(\n            \"refusing to write invalid schema to stream.\"", "    if not _validate_scsv_schema(schema):\n        raise _err.SCSVError(\n            \"refusing to write an invalid schema to stream.\"", B),
     ("benign-config-comment", ["C19"], "io.py", "    # Make sure volume fractions sum to 1.", "    # Volume fractions must sum to one.", B),
     ("benign-pathline-rename", ["C18"], "pathlines.py", "def _ivp_jac(", "def _ivp_jacobian(", B),
+    ("benign-outer-schmid", ["C02", "C04"], "core.py", "    deformation_rate = np.empty((3, 3))\n    for i in range(3):\n        for j in range(3):\n            deformation_rate[i, j] = 2 * (",
+     "    deformation_rate = np.empty((3, 3))\n    return 2 * (slip_rates[0] * np.outer(orientation[0], orientation[1]) + slip_rates[1] * np.outer(orientation[0], orientation[2])\n                + slip_rates[2] * np.outer(orientation[2], orientation[1]) + slip_rates[3] * np.outer(orientation[2], orientation[0]))\n    for i in range(3):\n        for j in range(3):\n            deformation_rate[i, j] = 2 * (", B),
+    ("benign-crss-if-chain", ["C02", "C07"], "core.py", "            case MineralFabric.olivine_A:\n                return np.array([1, 2, 3, np.inf])", "            case MineralFabric.olivine_A:\n                crss_a = [1, 2, 3, np.inf]\n                return np.array(crss_a)", B),
+    ("benign-concatenate", ["C01", "C06", "C05"], "minerals.py", "            return np.hstack(\n                (\n                    deformation_gradient_diff.flatten(),\n                    orientations_diff.flatten() * strain_rate_max,\n                    fractions_diff * strain_rate_max,\n                )\n            )",
+     "            return np.concatenate(\n                (\n                    deformation_gradient_diff.ravel(),\n                    strain_rate_max * orientations_diff.ravel(),\n                    strain_rate_max * fractions_diff,\n                )\n            )", B),
+    ("benign-sym-part-helper", ["C05", "C06", "C04"], "minerals.py", "            strain_rate = (velocity_gradient + velocity_gradient.transpose()) / 2", "            strain_rate = 0.5 * (velocity_gradient + velocity_gradient.T)", B),
+    ("benign-zeros-for-empty", ["C02", "C03"], "core.py", "        strain_energies = np.empty(n_grains)\n        orientations_diff = np.empty((n_grains, 3, 3))\n        for grain_index in range(n_grains):\n            orientation_change, strain_energy = _get_rotation_and_strain(\n                phase,\n                fabric,\n                orientations[grain_index],\n                strain_rate,\n                velocity_gradient,\n                stress_exponent,\n                deformation_exponent,\n                nucleation_efficiency,\n            )\n            orientations_diff[grain_index] = orientation_change\n",
+     "        strain_energies = np.zeros(n_grains)\n        orientations_diff = np.zeros((n_grains, 3, 3))\n        for grain_index in range(n_grains):\n            orientation_change, strain_energy = _get_rotation_and_strain(\n                phase,\n                fabric,\n                orientations[grain_index],\n                strain_rate,\n                velocity_gradient,\n                stress_exponent,\n                deformation_exponent,\n                nucleation_efficiency,\n            )\n            orientations_diff[grain_index, :, :] = orientation_change\n", B),
+    ("benign-voigt-enumerate", ["C10"], "minerals.py", "    for i in range(n_steps):\n        for mineral in minerals:\n            for n in range(n_grains):", "    for i in range(n_steps):\n        for mineral in list(minerals):\n            for n in range(n_grains):", B),
+    ("benign-scatter-einsum", ["C13"], "stats.py", "    scatter[0, 0] = np.sum(orientations[:, row, 0] ** 2)", "    scatter[0, 0] = np.sum(orientations[:, row, 0] * orientations[:, row, 0])", B),
+    ("benign-save-dict-order", ["C17"], "minerals.py", "                \"fractions\": np.stack(self.fractions),\n                \"orientations\": np.stack(self.orientations),", "                \"orientations\": np.stack(self.orientations),\n                \"fractions\": np.stack(self.fractions),", B),
+    ("benign-resample-names", ["C15"], "stats.py", "        count_less = np.searchsorted(cumfrac, rng.random(n_samples))", "        uniform = rng.random(n_samples)\n        count_less = np.searchsorted(cumfrac, uniform)", B),
+    ("benign-tospherical-hypot", ["C20"], "geometry.py", "    r = np.sqrt(x**2 + y**2 + z**2)", "    r = np.sqrt(x * x + y * y + z * z)", B),
+    ("benign-corner-factor", ["C18"], "velocity.py", "    prefactor = 4 * plate_speed / (np.pi * (h**2 + v**2) ** 2)", "    r2 = h**2 + v**2\n    prefactor = 4 * plate_speed / (np.pi * r2 * r2)", B),
+    ("benign-config-local", ["C19"], "io.py", "    n_provided = len(_params[\"disl_coefficients\"])", "    coeffs = _params[\"disl_coefficients\"]\n    n_provided = len(coeffs)", B),
+    ("benign-gbs-where", ["C09", "C01"], "utils.py", "    fractions[mask] = gbs_threshold / n_grains\n", "    fractions[:] = np.where(mask, gbs_threshold / n_grains, fractions)\n", B),
 ]
 # the rename above needs both the definition and the use
 RENAME_ALSO = {"benign-pathline-rename": [("        jac=_ivp_jac,", "        jac=_ivp_jacobian,")]}
